@@ -148,3 +148,59 @@ func ZZ_C06_M1() {
 	zzSameOut(oa4, ob4, "block 4")
 	zzverif.Reach("M1 end")
 }
+
+// ZZ_C06_M2: a block that deletes and re-creates a ledger item (validator A1
+// unbonds its only stake and bonds again in the same block) while the node
+// serves a CheckTx that touches the same item (a delegation to A1) at any
+// position of that block.  Two validators: the stake limiter is not involved.
+func ZZ_C06_M2() {
+	govp := ctrlertypes.Test1GovParams()
+	g := zzNewGenesisBanded(5, 2, govp)
+	a, b := g.start(), g.start()
+	for _, n := range []*zzNode{a, b} {
+		n.emptyBlock(0)
+		n.emptyBlock(0)
+	}
+	gas, price := govp.MinTrxGas(), govp.GasPrice()
+	unbond := &zzTx{from: 1, to: 1, typ: ctrlertypes.TRX_UNSTAKING, amount: uint256.NewInt(0), gas: gas, gasPrice: price, nonce: 0, signer: 1,
+		payload: &ctrlertypes.TrxPayloadUnstaking{TxHash: make([]byte, 32)}}
+	rebond := &zzTx{from: 1, to: 1, typ: ctrlertypes.TRX_STAKING, amount: ctrlertypes.PowerToAmount(1000), gas: gas, gasPrice: price, nonce: 1, signer: 1}
+	deleg := &zzTx{from: 3, to: 1, typ: ctrlertypes.TRX_STAKING, amount: ctrlertypes.PowerToAmount(zzverif.NondetI64In("deleg.power", 1, 1<<30)), gas: gas, gasPrice: price, nonce: 0, signer: 3}
+	raws := [][]byte{a.encode(unbond), a.encode(rebond)}
+	rawC := b.encode(deleg)
+	slot := zzverif.Choose("inject.slot", 5) // before the block | after BeginBlock | between the txs | after the txs | after EndBlock
+	run := func(n *zzNode, withInject bool) *zzBlockOut {
+		out := &zzBlockOut{}
+		inj := func(at int) {
+			if withInject && at == slot {
+				n.app.CheckTx(abcitypes.RequestCheckTx{Tx: rawC, Type: abcitypes.CheckTxType_New})
+			}
+		}
+		inj(0)
+		n.begin(0, nil, nil)
+		inj(1)
+		for i, raw := range raws {
+			r := n.app.DeliverTx(abcitypes.RequestDeliverTx{Tx: raw})
+			out.codes, out.gasUsed = append(out.codes, r.Code), append(out.gasUsed, r.GasUsed)
+			if i == 0 {
+				inj(2)
+			}
+		}
+		inj(3)
+		e := n.app.EndBlock(abcitypes.RequestEndBlock{Height: n.height})
+		out.ups = e.ValidatorUpdates
+		inj(4)
+		out.hash = n.app.Commit().Data
+		return out
+	}
+	oa3, ob3 := run(a, false), run(b, true)
+	if oa3.codes[0] == 0 && oa3.codes[1] == 0 {
+		zzverif.Reach("M2 unbonded and re-bonded")
+	}
+	zzSameOut(oa3, ob3, "M2 block 3")
+	for k := 0; k < 2; k++ {
+		oa, ob := a.menuBlock(nil, true), b.menuBlock(nil, true)
+		zzSameOut(oa, ob, "M2 later block")
+	}
+	zzverif.Reach("M2 end")
+}
